@@ -1207,7 +1207,8 @@ fn catalogue() -> Vec<Mutation> {
         c.add(class, "plan.jobs[].<tasks>[].order", rule, role, move |d, rng| {
             let wh = *rng.pick(&["pickup", "delivery", "service", "replacement", "task2"]);
             let Some(p) = pick_s(rng, task_ptrs(d, wh)) else { return false };
-            if ptr_mut(d, &p)["order"].as_i64() == Some(val) {
+            // negative orders are decided only under an `objectives` property (the *-with-default-objectives classes cover the rest)
+            if ptr_mut(d, &p)["order"].as_i64() == Some(val) || (val < 0 && d.problem.get("objectives").is_none()) {
                 return false;
             }
             ptr_mut(d, &p)["order"] = json!(val);
@@ -2858,6 +2859,13 @@ fn catalogue_objectives(c: &mut Cat) {
         ("compact-tour-radius-valid-and-huge", "", Field, |d, r| {
             let mut o = plain_objectives(d);
             o.push(json!({"type": "compact-tour", "job_radius": *r.pick(&[1u64, 2, 1_000_000, u64::MAX])}));
+            Some(o)
+        }),
+        // objectives.md spells the parameters `options: {jobRadius, threshold, distance}`, the model reads `job_radius`:
+        // the documented spelling does not deserialise (tabulated as out-of-domain, never a verdict)
+        ("compact-tour-documented-spelling", "", Field, |d, _| {
+            let mut o = plain_objectives(d);
+            o.push(json!({"type": "compact-tour", "options": {"jobRadius": 2, "threshold": 2, "distance": 0.1}}));
             Some(o)
         }),
         ("hierarchical-areas-levels", "", Field, |d, r| {
